@@ -150,7 +150,7 @@ def run(ctx):
         reqs = []
         # every single fault; the number of operations can grow after a fault (Exists fails -> Set is tried), so go a bit beyond
         # (large workloads: a stride through the operations in the quick tier, every operation in the thorough tier)
-        stride = 1 if (nops <= 60 or not quick) else max(1, nops // 22)
+        stride = 1 if (nops <= 60 or not quick) else max(1, nops // 15)
         for i in list(range(1, nops + 3, stride)) + ([nops, nops + 1] if stride > 1 else []):
             for kind in KINDS:
                 reqs.append((dict(base, plans=[{"plan": {str(i): kind}}]), "single:" + kind))
@@ -163,11 +163,11 @@ def run(ctx):
         for i in range(1, nops + 1, 1 if not quick else max(1, nops // 4)):
             for kind in KINDS:
                 reqs.append((dict(base, plans=[{"every": kind, "from": i}]), "from:" + kind))
-        for _ in range(10 if quick else 60):
+        for _ in range(6 if quick else 60):
             idx = ctx.rng.sample(range(1, nops + 2), min(nops, ctx.rng.choice([2, 3])))
             reqs.append((dict(base, plans=[{"plan": {str(i): ctx.rng.choice(KINDS) for i in idx}}]), "multi"))
         # two concurrent processes writing the same content (same digests, same target keys), with faults
-        for _ in range(8 if quick else 60):
+        for _ in range(6 if quick else 60):
             plans = [{"plan": {str(ctx.rng.randint(1, nops + 1)): ctx.rng.choice(KINDS) for _ in range(ctx.rng.choice([0, 1, 2]))}} for _ in range(2)]
             reqs.append((dict(base, procs=2, plans=plans), "concurrent"))
         for _ in range(4 if quick else 30):
